@@ -225,6 +225,10 @@ class EvalMixin:
             return z3.BoolVal(a.name == b.name)       # builtin types / functions: identity by name
         if a is b:
             return z3.BoolVal(True)
+        for x, y in ((a, b), (b, a)):
+            if isinstance(x, SV) and x.shape is ValS and isinstance(y, VExternal) and y.self_obj is None:
+                # an opaque value compared with a foreign object known by name (ctypes.c_char): one constant per name
+                return x.e == z3.Const('ext:' + y.name, Val)
         if isinstance(a, Value) and isinstance(b, Value) and a.shape is not None \
                 and b.shape is not None and a.shape != b.shape:
             return z3.BoolVal(False)
@@ -677,6 +681,10 @@ class EvalMixin:
 
     def getitem(self, obj, idx):
         obj = self.force(obj, 'subscript base')
+        if isinstance(obj, SV) and obj.shape is ValS and not self.spec:
+            ext = self.find_external('getitem<opaque>')
+            if ext is not None:
+                return ext(self, [obj, idx], {})       # subscript of an opaque value: an assumed contract
         if type(obj).__name__ == 'PyDictC':
             for k, v in obj.pairs:
                 if self.path.decide(self.eq(idx, k)):
